@@ -161,7 +161,9 @@ def tlc(spec_dir, module, cfg=None, workers=None, timeout=900, env=None, simulat
     seq = _tlc_seq[0] = next(_tlc_counter)
     meta = os.path.join(SCRATCH, "tlc-%d-%d" % (os.getpid(), seq))
     os.makedirs(meta, exist_ok=True)
-    jopts = ["-XX:+UseParallelGC", "-Xmx" + heap]
+    # TLC unpacks its standard modules into java.io.tmpdir/tlc-<random> and never removes them: keep that inside the
+    # per-run metadir (removed below) instead of leaking one directory per run into /tmp
+    jopts = ["-XX:+UseParallelGC", "-Xmx" + heap, "-Djava.io.tmpdir=" + meta]
     if dfs_queue:
         jopts.append("-Dtlc2.tool.queue.IStateQueue=StateDeque")
     common = os.path.join(SPEC, "common")
